@@ -20,6 +20,9 @@ pub struct SeqParams {
     pub vals: usize,
     #[serde(default)]
     pub provenance: bool,
+    /// > 0: from every explored state also every unmerged continuation of this many operations
+    #[serde(default)]
+    pub suffix: usize,
 }
 
 pub struct Out {
@@ -235,6 +238,14 @@ pub fn long_family<F: Fl>(job: &Job, kmax: usize, out: &mut Out) {
 /// the invariant / contract is checked on its last transition. Edge values are
 /// the position of the call in the history, so every edge is recognisable.
 pub fn deep_histories<F: Fl>(job: &Job, n: usize, depth: usize, out: &mut Out) {
+    deep_from::<F>(job, n, &[], depth, true, out)
+}
+
+/// `deep_histories` continued from the history `base` (which is replayed, not
+/// checked): every suffix of at most `depth` operations, unmerged. With
+/// `shard_here` the suffixes are split among the job's shards by their first
+/// two operations; otherwise the caller has already chosen this base for this shard.
+pub fn deep_from<F: Fl>(job: &Job, n: usize, base: &[Op], depth: usize, shard_here: bool, out: &mut Out) {
     let prop = job.property.as_str();
     let alpha = alphabet(n, 1);
     let with_val = |op: &Op, d: usize| -> Op {
@@ -246,25 +257,27 @@ pub fn deep_histories<F: Fl>(job: &Job, n: usize, depth: usize, out: &mut Out) {
         }
     };
     // explicit stack of (history, next op index)
-    let mut h: Vec<Op> = Vec::new();
+    let b = base.len();
+    let mut h: Vec<Op> = base.to_vec();
     let mut idx: Vec<usize> = vec![0];
     let mut first: Vec<usize> = Vec::new();
     loop {
-        let d = h.len();
+        let d = h.len() - b;
         let i = *idx.last().unwrap();
         if i >= alpha.len() {
             idx.pop();
-            if h.pop().is_none() {
+            if d == 0 {
                 break;
             }
-            first.truncate(h.len());
+            h.pop();
+            first.truncate(h.len() - b);
             continue;
         }
         *idx.last_mut().unwrap() += 1;
-        if d == 1 && (first[0] * alpha.len() + i) % job.nshards != job.shard {
+        if shard_here && d == 1 && (first[0] * alpha.len() + i) % job.nshards != job.shard {
             continue;
         }
-        let op = with_val(&alpha[i], d);
+        let op = with_val(&alpha[i], if b == 0 { d } else { 40 + d });
         crate::progress::tick();
         let w = match World::<F>::build(n, &h) {
             Ok(w) => w,
@@ -463,6 +476,19 @@ pub fn explore<F: Fl>(job: &Job, out: &mut Out) {
             }
         }
         cur += 1;
+    }
+    // from every explored state: every continuation of `suffix` operations on ONE
+    // object, unmerged (hidden state that needs a particular adjacency to matter,
+    // e.g. a remembered list position that a later removal shifts)
+    if p.suffix > 0 {
+        for (i, h) in hist.iter().enumerate() {
+            if i % job.nshards != job.shard {
+                continue;
+            }
+            crate::progress::set_case(|| mk_case(F::NAME, p.n, h, None).to_string());
+            out.stats.inc("suffix_bases");
+            deep_from::<F>(job, p.n, h, p.suffix, false, out);
+        }
     }
 }
 
